@@ -93,8 +93,11 @@ func (c *MustacheTokenizer) ReadNextToken() *tokenizers.Token {
 	c.special = false
 	token := c.AbstractTokenizer.ReadNextToken()
 	isSymbol := token != nil && token.Type() == tokenizers.Symbol
-	c.comment = c.tagStart && isSymbol && token.Value() == "!"
-	c.tagStart = isSymbol && (token.Value() == "{{" || token.Value() == "{{{")
+	// (blanks between the opening braces and '!' do not count: '{{ ! ... }}' is a comment too)
+	if token == nil || token.Type() != tokenizers.Whitespace {
+		c.comment = c.tagStart && isSymbol && token.Value() == "!"
+		c.tagStart = isSymbol && (token.Value() == "{{" || token.Value() == "{{{")
+	}
 	// Switch to quote when '{{' or '{{{' symbols found
 	// (only the closing symbol itself: a decoded string literal can have the same text)
 	if isSymbol && (token.Value() == "}}" || token.Value() == "}}}") {
